@@ -5,7 +5,8 @@ import pvlib
 from pvlib import Reporter, write_evidence, tlc_gen, pv, read_ndjson, log, OUT, ToolError
 
 
-def scan_check(prop, tier, replay, cfgs, fields, rule, assumptions=(), parse=False):
+def scan_check(prop, tier, replay, cfgs, fields, rule, assumptions=(), parse=False, pre=None):
+    """pre: (rc, coverage) of a preceding sub-check whose coverage is merged into this evidence"""
     """cfgs: list of (cfg id, max text length)"""
     t0 = time.time()
     rep = Reporter(prop, tier)
@@ -65,12 +66,24 @@ def scan_check(prop, tier, replay, cfgs, fields, rule, assumptions=(), parse=Fal
             if i in (7, summary["vectors"] // 2, summary["vectors"] - 1):
                 samples.append(json.loads(l))
     rc = rep.finish()
+    if pre:
+        rc = max(rc, pre[0])
     cov = {"states": max(tot["distinct"], 1), "transitions": max(tot["generated"], 1),
            "traces_validated_against_impl": summary["vectors"], "samples": samples,
            "evaluations": summary["evaluations"], "distinct_nontrivial": summary["tags"].get("two_or_more_tokens", 0),
            "rule": rule, "tags": summary["tags"], "spaces": space_cov, "exhaustive": True,
            "known_findings_seen": rep.known, "tlc_wall_s": round(tot["wall"], 1)}
-    write_evidence(prop, tier, "model_checking", cov, time.time() - t0, len(rep.violations), assumptions)
+    nviol = len(rep.violations)
+    if pre:
+        pc = pre[1]
+        cov["parser_trace_leg"] = {k: pc[k] for k in ("tv", "tags", "spaces", "focus", "evaluations") if k in pc}
+        cov["states"] += pc["states"]
+        cov["transitions"] += pc["transitions"]
+        cov["traces_validated_against_impl"] += pc["traces_validated_against_impl"]
+        cov["evaluations"] += pc["evaluations"]
+        cov["exhaustive"] = False
+        nviol += pre[2]
+    write_evidence(prop, tier, "model_checking", cov, time.time() - t0, nviol, assumptions)
     return rc
 
 
@@ -82,7 +95,7 @@ BASE = ("Scanner.tla is an executable definition of the documented tokenisation 
 
 def c13(prop, tier, replay):
     n = 4 if tier == "quick" else 6
-    cfgs = [(c, n) for c in ("basic", "plus1", "plus2", "look", "modes", "stack")] + [("cmt", n if tier == "quick" else 5)]
+    cfgs = [(c, n) for c in ("basic", "plus1", "plus2", "look", "modes", "stack", "skipsw")] + [("cmt", n if tier == "quick" else 5)]
     return scan_check(prop, tier, replay, cfgs, "tok",
                       BASE + " with lookahead sizes k=1,2,3 and three consumption schedules (lazy, look ahead k before each consume, rotating): "
                       "all nine token sequences (type, byte offsets, skipped?) must equal the expected one. Configurations: shared-prefix literals, "
@@ -123,4 +136,23 @@ def c16(prop, tier, replay):
                       "tokens are leaves of the tree. non-trivial: >= 2 tokens", parse=True)
 
 
-REGISTRY = {"C13": c13, "C14": c14, "C15": c15, "C16": c16}
+def c17(prop, tier, replay):
+    import p_ll
+    pre = None
+    if not replay or "defs" not in json.load(open(replay))["case"]:
+        pre = p_ll.ll_check(prop, tier, replay, False, 3, 6 if tier == "quick" else 1, p_ll.RULE,
+                            "TV: texts that differ only in skipped tokens (blanks, newlines, line and block comments) must give the verdict "
+                            "and action sequence of the plain text; comments delivered once, in order, each skipped token a leaf", write=False)
+        if replay:
+            return pre[0]
+    n = 4 if tier == "quick" else 6
+    cfgs = [("stack", n), ("skipsw", n), ("cmt", n)]
+    return scan_check(prop, tier, replay, cfgs, "tok",
+                      BASE + "; C17: (a) scanner states with %skip lists (a token skipped in one state only; a skipped token that itself switches "
+                      "the state) and comments: expected skip flags from Scanner.tla, the LL and LR parsers must succeed exactly when no error "
+                      "token is expected, deliver every comment once in order and keep every skipped token as a leaf; (b) parser trace leg: "
+                      "LLParser.tla validates runs on texts decorated with blanks/newlines/comments against the run on the plain text (same verdict "
+                      "and actions). non-trivial: >= 2 tokens", parse=True, pre=pre)
+
+
+REGISTRY = {"C13": c13, "C14": c14, "C15": c15, "C16": c16, "C17": c17}
